@@ -1,5 +1,6 @@
 (* Props/C03.v -- property theorems for C03 only. *)
-From LV Require Import Base FS FSFacts LayerEnv LayerEnvFacts LayerShared LayerSharedGone LayerEnvFS LayerEnvFSFacts Determinism LayerEnvFSExact FSInv LayerEnvFSCompose.
+From LV Require Import Base FS FSFacts LayerEnv LayerEnvFacts LayerShared LayerSharedGone LayerEnvFS LayerEnvFSFacts Determinism LayerEnvFSExact FSInv LayerEnvFSCompose LayerEnvReadback LayerEnvFSRead LayerEnvFSCycle LayerEnvFSProc.
+From Coq Require Import Lia.
 From LVGen Require Import GenLayerEnv.
 
 Theorem c03_tables :
@@ -104,9 +105,9 @@ Theorem c03_write_to_layer_dir_exact :
 Proof. exact (write_to_layer_dir_exact beh_order writer_suffix). Qed.
 Print Assumptions c03_write_to_layer_dir_exact.
 
-(* PARTIAL: per-process directories below env.launch (create_dir_all's recursion when env.launch
-   itself is absent) are decided on implementation snapshots by the verified judgement
-   layout_exact / frame_chk of Checks/C03Hold.v and by the correspondence. *)
+(* PARTIAL: the composition of the per-process writes over all processes of an environment, and
+   reading per-process directories back, are decided on implementation snapshots by the verified
+   judgement layout_exact / frame_chk of Checks/C03Hold.v and by the correspondence. *)
 
 Example c03_nonvacuous :
   let d := dinsert Append [65; 46; 66] [1] (dinsert Override [255] [0; 10] (dinsert Delim [65; 46; 66] [58] delta_empty)) in
@@ -118,4 +119,107 @@ Proof.
   cbn zeta. split; [repeat apply dinsert_wf; apply delta_empty_wf|]. split.
   - repeat split; intros k v I; cbn in I; intuition congruence.
   - reflexivity.
+Qed.
+
+(* ---------- reading back, at file-system level ---------- *)
+Lemma gen_tables_inverse : tables_inverse writer_suffix reader_suffix.
+Proof. exact spec_tables_inverse. Qed.
+
+(* one env directory that holds what the writer leaves for d reads back as d -- the listing comes
+   back sorted by file name, unrelated to the order of writing; parse_files is shown to depend on
+   the SET of files only *)
+Theorem c03_read_env_dir_exact :
+  forall d p s,
+    simple_dir s p -> delta_wf d -> delta_names_nonempty d -> files_ok beh_order writer_suffix d ->
+    delta_is_empty d = false ->
+    (forall q, is_prefix p q = true -> pget q s = env_dir_spec beh_order writer_suffix d p q) ->
+    read_from_env_dir reader_suffix reader_no_ext reads_process p s = (s, Ok d).
+Proof. exact (read_env_dir_exact writer_suffix reader_suffix reader_no_ext reads_process gen_tables_inverse). Qed.
+Print Assumptions c03_read_env_dir_exact.
+
+(* the whole layer, environments without per-process entries: from any state satisfying the
+   representation invariants, write_to_layer_dir succeeds and read_from_layer_dir on the result
+   returns the three deltas exactly as written, no process deltas, and the implicit layer paths of
+   the layer's bin/lib/include/pkgconfig (C10) -- hence it applies identically for every scope and
+   starting environment *)
+Theorem c03_write_then_read :
+  forall e dir s,
+    fs_inv s dir -> env_ok writer_suffix e ->
+    root_ok s (dir ++ [n_env]) -> root_ok s (dir ++ [n_env_build]) -> root_ok s (dir ++ [n_env_launch]) ->
+    exists s', write_to_layer_dir beh_order writer_suffix e dir s = (s', Ok tt) /\ fs_inv s' dir /\
+               layer_written writer_suffix e dir s' /\
+               read_from_layer_dir reader_suffix reader_no_ext layer_path_specs path_list_separator reads_process dir s' =
+                 (s', Ok (read_result layer_path_specs path_list_separator e dir s')).
+Proof. exact (write_then_read writer_suffix reader_suffix reader_no_ext layer_path_specs path_list_separator reads_process gen_tables_inverse). Qed.
+Print Assumptions c03_write_then_read.
+
+(* one per-process directory env.launch/<process>: written after env.launch; when the launch delta
+   was empty env.launch does not exist and std::fs::create_dir_all creates it on the way (two
+   levels).  The effect on EVERY path is proc_step: nothing for an empty delta; otherwise the
+   process directory holds exactly the CNB layout of the delta, env.launch is a directory, and
+   everything else is as before. *)
+Theorem c03_proc_dir_exact :
+  forall dir pn pd s,
+    let L := dir ++ [n_env_launch] in
+    fs_inv s dir -> valid_name pn = true -> files_ok beh_order writer_suffix pd ->
+    launch_state s L -> pget (L ++ [pn]) s = None ->
+    exists s', write_env_dir beh_order writer_suffix pd (dir ++ [n_env_launch; pn]) s = (s', Ok tt) /\ fs_inv s' dir /\
+               launch_state s' L /\
+               forall q, pget q s' = proc_step beh_order writer_suffix L (fun q => pget q s) (pn, pd) q.
+Proof. exact (write_proc_dir beh_order writer_suffix). Qed.
+Print Assumptions c03_proc_dir_exact.
+
+(* the hypotheses are satisfiable: a layer directory /l, an environment with entries in all three
+   scopes (dotted and non-UTF-8 names), written and read back *)
+Definition ex_fs : fs := [([], Dir mode_dir_default); ([[108]], Dir mode_dir_default)].
+Definition ex_env : layer_env :=
+  mkLE (dinsert Append [65; 46; 66] [1] (dinsert Delim [65; 46; 66] [58] delta_empty))
+       (dinsert Override [255] [0; 10] delta_empty)
+       (dinsert Default [80] [] delta_empty) [] delta_empty delta_empty.
+
+Lemma ex_fs_inv : fs_inv ex_fs [[108]].
+Proof.
+  constructor.
+  - constructor.
+    + repeat constructor.
+    + intros k Hk. destruct k as [|[|k]]; cbn in Hk; [| |lia]; exists mode_dir_default; split; reflexivity.
+    + exists mode_dir_default. repeat split; reflexivity.
+  - intros q n H. apply in_keys_pget in H. cbn in H. destruct H as [H|[H|[]]].
+    + destruct q; discriminate.
+    + destruct q as [|a [|b q]]; try discriminate. exists mode_dir_default. reflexivity.
+  - unfold fs_nodup. cbn. repeat constructor; cbn; intuition discriminate.
+Qed.
+
+Lemma ex_env_ok : env_ok writer_suffix ex_env.
+Proof.
+  split; [reflexivity|].
+  assert (K : forall d, delta_wf d -> delta_names_nonempty d ->
+              NoDup (map fst (delta_files spec_beh_order writer_suffix d)) ->
+              Forall (fun f => valid_name (fst f) = true) (delta_files spec_beh_order writer_suffix d) ->
+              delta_ok writer_suffix d).
+  { intros d W N A B. split; [exact W|]. split; [exact N|]. split; assumption. }
+  split; [|split]; apply K.
+  - repeat apply dinsert_wf; apply delta_empty_wf.
+  - repeat split; intros k v I; cbn in I; intuition congruence.
+  - cbn. repeat constructor; cbn; intuition discriminate.
+  - cbn. repeat constructor.
+  - repeat apply dinsert_wf; apply delta_empty_wf.
+  - repeat split; intros k v I; cbn in I; intuition congruence.
+  - cbn. repeat constructor; cbn; intuition discriminate.
+  - cbn. repeat constructor.
+  - repeat apply dinsert_wf; apply delta_empty_wf.
+  - repeat split; intros k v I; cbn in I; intuition congruence.
+  - cbn. repeat constructor; cbn; intuition discriminate.
+  - cbn. repeat constructor.
+Qed.
+
+Example c03_fs_nonvacuous :
+  exists s', write_to_layer_dir beh_order writer_suffix ex_env [[108]] ex_fs = (s', Ok tt) /\
+             layer_written writer_suffix ex_env [[108]] s' /\
+             pget [[108]; n_env; [65; 46; 66; 46; 97; 112; 112; 101; 110; 100]] s' = Some (File mode_file_default (Raw [1])) /\
+             pget [[108]; n_env_build; [255; 46; 111; 118; 101; 114; 114; 105; 100; 101]] s' = Some (File mode_file_default (Raw [0; 10])).
+Proof.
+  destruct (c03_write_then_read ex_env [[108]] ex_fs ex_fs_inv ex_env_ok) as (s' & E & _ & W & _); try (left; reflexivity).
+  exists s'. split; [exact E|]. split; [exact W|].
+  vm_compute in E. inversion E; subst s'. split; reflexivity.
 Qed.
